@@ -68,6 +68,11 @@ func main() {
 		os.Exit(2)
 	}
 	stream := os.Args[1]
+	if stream == "-I" {
+		// invoked as the configured assembler binary: <bin> -I <srcdir> -o <out> -f cbm <source>
+		fakeAssemblerMain(os.Args[1:])
+		return
+	}
 	if stream == "isochild" && len(os.Args) == 7 {
 		isoChild(os.Args[2:])
 		return
